@@ -311,6 +311,26 @@ func runC06(r *Run) {
 		var rerr error
 		got := 0
 		done := false
+		// echoBehindWrite: an application write is stuck in the transport (the peer
+		// reads 2 s late) when the peer's Close frame arrives, so the echo has to wait
+		// for the frame lock; the context of the Read that received the Close frame
+		// ends meanwhile. The echo belongs to the close handshake, not to that call:
+		// it must still go out once the peer reads again.
+		echoBehindWrite := readerMode != 1 && !peerDropsAfterEcho && t.Pct(20)
+		holdPeer := false
+		if echoBehindWrite {
+			sig += ",echo-behind-write"
+			holdPeer = true
+			peer.Hold = func() bool { return holdPeer }
+			rc.Lib.Out().Cap = 64
+			rc.Lib.Out().HardCap = true
+			r.S.Go("bgwriter", func() { c.Write(bg, websocket.MessageBinary, Payload{Kind: 2, Len: 3000, Seed: 5}.Bytes()) })
+			time.AfterFunc(2*time.Second, func() {
+				holdPeer = false
+				r.S.Kick()
+			})
+			r.S.Count("probe.echo-queued-behind-a-stalled-write")
+		}
 		switch readerMode {
 		case 0, 2:
 			r.S.Go("reader", func() {
@@ -318,7 +338,13 @@ func runC06(r *Run) {
 					r.S.Sleep(time.Second)
 				}
 				for {
-					_, _, e := c.Read(bg)
+					rctx := bg
+					if echoBehindWrite {
+						var cancel context.CancelFunc
+						rctx, cancel = context.WithTimeout(bg, 1200*time.Millisecond)
+						defer cancel()
+					}
+					_, _, e := c.Read(rctx)
 					if e != nil {
 						rerr = e
 						break
@@ -337,6 +363,9 @@ func runC06(r *Run) {
 		}
 		r.S.Go("peer", func() {
 			r.S.Park("a.peer.send")
+			if echoBehindWrite {
+				r.S.ParkE("a.peer.wait-stuck-writer", func() bool { return rc.Lib.InWriteLocked() || rc.Lib.ClosedLocked() }, nil)
+			}
 			peer.SendBytes(stream)
 			if peerDropsAfterEcho {
 				// a peer that sends its Close frame and tears the transport down
